@@ -115,12 +115,14 @@ def random_epr_plan(rng, thorough):
             n = rng.randrange(1, 3)
             if max(len(live[c]), len(live[r])) + n > 6:
                 continue
-            q = {"c": c, "r": r, "n": n, "s": len([x for x in reqs if {x["c"], x["r"]} == {c, r}])}
+            q = {"c": c, "r": r, "n": n, "s": len([x for x in reqs if {x["c"], x["r"]} == {c, r}]),
+                 "tp": "M" if rng.random() < 0.3 else "K"}           # measure-directly pairs are consumed at once: nothing may stay behind
             reqs.append(q)
             ri = len(reqs) - 1
             for node in (c, r):
                 steps[node].append(("req", ri))
-                live[node] += [("H", ri, i) for i in range(n)]
+                if q["tp"] == "K":
+                    live[node] += [("H", ri, i) for i in range(n)]
                 local_steps(node, rng.randrange(0, 3))
         for node in range(n_nodes):
             local_steps(node, rng.randrange(0, 4))
@@ -161,7 +163,11 @@ def run_epr_plan(env, plan):
                     if st[0] == "req":
                         q = gen["reqs"][st[1]]
                         e = eprs[socks[node].index(sk(q, node))]
-                        got = e.create_keep(q["n"]) if q["c"] == node else e.recv_keep(q["n"])
+                        if q.get("tp", "K") == "M":
+                            got = []
+                            (e.create_measure if q["c"] == node else e.recv_measure)(q["n"])
+                        else:
+                            got = e.create_keep(q["n"]) if q["c"] == node else e.recv_keep(q["n"])
                         for i, x in enumerate(got):
                             qs[("H", st[1], i)] = x
                         conn.flush()
@@ -230,6 +236,11 @@ HOLES = {"n_nodes": 2, "pb": False, "sched": 11, "gens": [
      "steps": [[("alloc", ("L", 0)), ("alloc", ("L", 1)), ("h", ("L", 1)), ("free", ("L", 0)), ("req", 0), ("cnot", ("L", 1), ("H", 0, 0)), ("free", ("H", 0, 0))],
                [("alloc", ("L", 0)), ("alloc", ("L", 1)), ("free", ("L", 0)), ("req", 0), ("cnot", ("L", 1), ("H", 0, 1)), ("free", ("H", 0, 1)), ("free", ("L", 1))]],
      "stop_order": [1, 0]}] * 2}
+
+
+MDIRECT = {"n_nodes": 2, "pb": False, "sched": 13, "gens": [
+    {"reqs": [{"c": 0, "r": 1, "n": 2, "s": 0, "tp": "M"}, {"c": 1, "r": 0, "n": 1, "s": 1, "tp": "M"}, {"c": 0, "r": 1, "n": 1, "s": 0, "tp": "K"}],
+     "steps": [[("req", 0), ("req", 1), ("req", 2)], [("req", 0), ("req", 1), ("req", 2)]], "stop_order": [0, 1]}] * 2}
 
 
 def judge_c11(s):
@@ -307,12 +318,13 @@ def run(ctx):
         reuse.scenario = name
         leak_runs, leak_found = failed_pair_leak(env, rng, t)
         epr_found = []
-        plans = [REPEATER, dict(REPEATER, pb=True), HOLES, dict(HOLES, pb=True)] + [random_epr_plan(rng, t) for _ in range(400 if t else 24)]
+        plans = [REPEATER, dict(REPEATER, pb=True), HOLES, dict(HOLES, pb=True), MDIRECT] + [random_epr_plan(rng, t) for _ in range(400 if t else 24)]
         for plan in plans:
             probs, obs = run_epr_plan(env, plan)
             ctx.count("epr_plans")
             ctx.count("epr_plans_over_real_PB", 1 if plan["pb"] else 0)
             ctx.count("epr_generations", len(plan["gens"]))
+            ctx.count("epr_plan_measure_directly_requests", sum(1 for g_ in plan["gens"] for q_ in g_["reqs"] if q_.get("tp") == "M"))
             ctx.count("epr_stops_observed", len(obs))
             ctx.count("epr_plan_two_qubit_gates", sum(1 for g_ in plan["gens"] for a in g_["steps"] for x in a if x[0] in ("cnot", "cphase")))
             ctx.count("epr_plan_frees_and_measurements", sum(1 for g_ in plan["gens"] for a in g_["steps"] for x in a if x[0] in ("free", "meas")))
